@@ -116,7 +116,11 @@ def tagOf (cfg : Config) (req : Req) : String :=
       | some n => malformed cfg n
       | none => false
     let xip := stripPort (specAddr cfg.inNets req.remoteAddr (parseHops req.xff))
-    s!"xip={hexStr xip} ut={if ut then 1 else 0} utip={hexStr (stripPort req.remoteAddr)} mal={if mal then 1 else 0} ent={commaList ent} list={commaList lst}"
+    -- the entry the requested name stands for (one alias hop): the only key a token may be asked to use
+    let res := match req.ep.keyName with
+      | some n => (match resolve cfg n with | some t => t.name | none => "-")
+      | none => "-"
+    s!"xip={hexStr xip} ut={if ut then 1 else 0} utip={hexStr (stripPort req.remoteAddr)} mal={if mal then 1 else 0} res={if res = "" then "-" else res} ent={commaList ent} list={commaList lst}"
 
 def handle : List String → String
   | "req" :: cfg :: rest =>
